@@ -81,6 +81,7 @@ func templates(r *rand.Rand) (uploads, others, stuck []roundPlan) {
 			roundPlan{Action: act, Early: 3, Used: 2, Late: 1},
 			roundPlan{Action: act, Early: 1, Late: 3, Dynamic: true},
 			roundPlan{Action: act, PA: "older", Dissent: true},
+			roundPlan{Action: act, Used: -1, Early: 2}, // the empty prefix (the statement allows any prefix; the code wants >= 1 signature)
 		)
 		var names []string
 		for _, c := range cat {
